@@ -570,6 +570,8 @@ def _node_mismatch(b, fmt, kind, height, bf, order=None):
     if bf < 2:
         return None
     ks_ = (lambda tk: tk.split(":", 1)[1]) if order == "text" else key_sort   # "text": the printed decimal form
+    if order == "half":
+        ks_ = lambda tk: int(tk.split(":", 1)[1]) >> 1                          # "half": floor(v/2), 2k and 2k+1 compare equal
     for a, c in zip(toks, toks[1:]):
         if not ks_(a) < ks_(c):
             return "top node keys not strictly ascending under the configured order"
